@@ -12,7 +12,11 @@ import json
 import os
 from fractions import Fraction
 
+import sys
+
 import common
+sys.path.insert(0, os.path.join(common.VERIF, "tx"))
+import checkterms as txct
 
 SYMS = ["I", "a", r"a^\dagger", "X", "Y", "Z", "sigma_+", "x", "p", "b", r"b^\dagger", r"b^\dagger + b", "n", "sigma_-"]
 SYM_ID = {s: i for i, s in enumerate(SYMS)}
@@ -24,6 +28,8 @@ ORA_SYMS = {0: SPIN, 3: SPIN,
             2: [SYM_ID[s] for s in ["a", r"a^\dagger"]]}
 KIND_COQ = {"int": "KInt", "bool": "KInt", "float": "KFloat", "complex": "KCplx", "i64": "KNpI", "i32": "KNpI",
             "i8": "KNpI", "f32": "KNpI", "f64": "KNpF", "c128": "KNpC", "c64": "KNpC", "arri": "KArrI", "arrf": "KArrF"}
+# global / per-letter scales 2**k: ~1e-30, 1e-24, 1e-17, 1e-8, 1e8, 1e24, 1e30 (dyadic, so both sides stay exact)
+KS = [-100, -80, -57, -27, 27, 80, 100]
 REAL_KINDS = ["int", "float", "i64", "f64", "i32", "f32", "i8", "bool"]
 CPLX_KINDS = ["complex", "c128", "c64"]
 INT_KINDS = {"int", "i64", "i32", "i8", "bool"}
@@ -31,8 +37,14 @@ INT_KINDS = {"int", "i64", "i32", "i8", "bool"}
 
 # ------------------------------------------------------------------------------- generator
 class Gen:
-    def __init__(self, rng, ndof, dof_syms=None, qs=1, max_terms=20, max_word=7, malformed=False, plain=False):
+    def __init__(self, rng, ndof, dof_syms=None, qs=1, max_terms=20, max_word=7, malformed=False, plain=False, scale=False):
         self.r = rng
+        # scale mode: every non-identity letter (symbol, dof) carries a power-of-two weight 2**k; a leaf's factor is
+        # multiplied by the weights of its letters.  The magnitude of a term is then determined by its (symbol, dofs)
+        # key, so merging equal terms stays exact in binary64 while magnitudes range over ~1e-180 .. 1e180.
+        self.scale = {} if scale else None
+        if scale:
+            max_word = min(max_word, 6)
         self.ndof = ndof
         self.dof_syms = dof_syms
         self.qs = qs
@@ -86,6 +98,22 @@ class Gen:
             re = max(-5, min(5, re))
         return {"t": "sc", "k": k, "re": re, "im": im, "ex": ex}
 
+    def scaled(self, f, syms, dofs):
+        if self.scale is None:
+            return f
+        k = 0
+        for s_, d_ in zip(syms, dofs):
+            if s_ != 0:
+                if (s_, d_) not in self.scale:
+                    self.scale[(s_, d_)] = self.r.choice([-100, -80, -57, -27, 0, 0, 27, 80, 100])
+                k += self.scale[(s_, d_)]
+        if k == 0:
+            return f
+        f = dict(f, ex=f["ex"] + k)
+        if f["k"] in INT_KINDS or f["k"] in ("f32", "c64"):
+            f["k"] = "float"
+        return f
+
     # ---- leaves
     def letter(self, prev_dofs):
         r = self.r
@@ -115,7 +143,8 @@ class Gen:
         r = self.r
         if r.random() < 0.07:
             n = r.choice([1, 1, 2, 3])
-            ds = [r.randrange(self.ndof) for _ in range(n)]
+            pool = sorted(self.dof_syms) if self.dof_syms is not None else list(range(self.ndof))
+            ds = [r.choice(pool) for _ in range(n)]
             single = n == 1 and r.random() < 0.5
             self.count("leaf:identity")
             return ({"t": "ident", "dofs": ds, "single": single, "qs": self.qs, "f": self.sc("factor")}, "O", 1, n)
@@ -124,7 +153,7 @@ class Gen:
         for _ in range(n):
             s, d, q = self.letter(dofs)
             syms.append(s), dofs.append(d), qn.append(q)
-        node = {"t": "op", "syms": syms, "dofs": dofs, "f": self.sc("factor"), "qn": qn, "qnstyle": "nested"}
+        node = {"t": "op", "syms": syms, "dofs": dofs, "f": self.scaled(self.sc("factor"), syms, dofs), "qn": qn, "qnstyle": "nested"}
         default = [[1] if s == 2 else [-1] if s == 1 else [0] for s in syms]
         if self.qs == 1:
             st = r.choice(["nested", "flat", "array", "int" if n == 1 else "flat"])
@@ -323,6 +352,13 @@ class Gen:
                     o = "+"
             if o == "+" and a[1] == "S" and a[0]["k"] in ("arri", "arrf") and b[1] in ("U", "L"):
                 a = g("O")
+            # a NumPy scalar and a plain python list: NumPy broadcasting, no renormalizer object is an operand
+            np_kinds = ("i64", "i32", "i8", "f32", "f64", "c128", "c64", "arri", "arrf")
+            if (a[1] == "S" and a[0]["k"] in np_kinds and b[1] == "L") or (b[1] == "S" and b[0]["k"] in np_kinds and a[1] == "L"):
+                if a[1] == "S":
+                    a = g("O")
+                else:
+                    b = g("O")
             return {"t": "bin", "op": o, "a": a[0], "b": b[0], "aug": False}, "X", 1, 1
         if p == "iadd":
             a, b = g(r.choice(["U", "L", "O"])), g(T())
@@ -583,6 +619,8 @@ def fail_class(diff):
 
 REPRO_TIE = ("import sys, json\nsys.path.insert(0, %r)\nimport c15_lib\n"
              "sys.exit(c15_lib.replay(json.loads(%r)))\n")
+REPRO_CT = ("import sys, json\nsys.path.insert(0, %r)\nimport c15_lib\n"
+            "sys.exit(c15_lib.replay_ct(json.loads(%r)))\n")
 REPRO_ORA = ("import sys, json\nsys.path.insert(0, %r)\nimport c15_oracle\n"
              "sys.exit(c15_oracle.replay(json.loads(%r)))\n")
 IMPL_DIR = os.path.join(common.VERIF, "harness", "impl")
@@ -596,10 +634,13 @@ def run(ctx):
     n_pair = 1000 if thorough else 140
     n_split = 600 if thorough else 90
     n_ora = 3000 if thorough else 360
+    n_ct = 1200 if thorough else 160          # Model.check_operator_terms cases (global / mixed scales)
+    n_scl = 500 if thorough else 70           # dense oracle: Model(c * H) = c * Model(H)
     ctx.trusted += [
         "correspondence harness/c15.py + harness/impl/c15_lib.py: rendering of a JSON expression program as python operators on renormalizer Op/OpSum and as a Coq term over Model/OpAlg.v (DG instance), field-by-field export, decoding of the vm_compute output",
         "CPython/NumPy: operator dispatch (reflected operands, subclass priority), numeric ==/hash invariant across int/float/complex/NumPy scalars, exactness of binary64 arithmetic on the small dyadic factors used (a 1e-12 relative fallback is counted separately)",
         "modelled, not verified: binary64 rounding of factors; NumPy hypot in np.abs for complex factors (tolerances are chosen so the comparison |c|>atol is decided exactly); symbol strings are abstracted to lists of symbol ids (the string form is checked by the exporter)",
+        "translator tx/checkterms.py (python ast of Model.check_operator_terms -> Gen/CheckTerms.v; fail-closed: only `factor == 0` is understood as discard test)",
         "dense oracle harness/impl/c15_oracle.py is not in the trusted base of any theorem (failing-input search only)"]
     ctx.assumptions += [
         "interpretation contract malg_ok (M unital ring, scalars embedded centrally, 'I' |-> 1) and, for split_elementary only, sites_commute (letters on different sites commute): Section hypotheses of the theorems, true of kron-embedded local matrices; a non-commutative instance is exhibited (Props/C15.v Examples)",
@@ -607,6 +648,16 @@ def run(ctx):
         "expressions the implementation rejects (TypeError etc.) are outside the property: Op / scalar, list * OpSum, OpSum + 0 are rejected by op.py and by the model alike",
         "EXCLUDED INPUT CLASS (decision, reported to the coordinator): a plain python list multiplied by an int, in particular OpSum.product([plain_list, negative_int, ...]) which the implementation accepts and evaluates to [] (denotes 0, wrong matrix; CPython list repetition). The generator never places a scalar directly after a leading plain list and the model rejects list*scalar; current behaviour is re-observed on every run (notes: excluded-class probe)",
         "EXCLUDED FROM THE Mpo ORACLE ROUTE (failure of /repo outside C15, reported to the coordinator): Mpo(model, terms) raises a NumPy ValueError when the terms cancel exactly; programs denoting the zero operator are compared through the own-kron route only"]
+
+    # ---- 0. translator: Model.check_operator_terms -> Gen/CheckTerms.v (fail-closed)
+    tx_fail = None
+    try:
+        text, tx_info = txct.main(common.REPO)
+        ctx.regen("Gen/CheckTerms.v", text)
+        ctx.obligations.append({"name": "translator tx/checkterms.py (discard test: %s)" % tx_info["source"], "file": "Gen/CheckTerms.v", "ok": True, "assumptions": []})
+    except Exception as e:  # noqa: BLE001
+        tx_fail = "%s: %s" % (type(e).__name__, e)
+        ctx.obligations.append({"name": "translator tx/checkterms.py", "file": "Gen/CheckTerms.v", "ok": False, "assumptions": None})
 
     # ---- 1. Coq
     ok_build, log = ctx.coq_make(["Proofs/OpAlgProofs.vo"])
@@ -627,18 +678,24 @@ def run(ctx):
             ds = rng.sample(range(len(DOFS_TIE)), rng.choice([1, 2, 2, 3]))
             ss = rng.sample(range(1, len(SYMS)), rng.choice([1, 2, 2, 3]))
             alpha = {d: ss for d in ds}
-        g = Gen(rng, len(DOFS_TIE), alpha, qs=qs, malformed=malformed)
+        scaled = rng.random() < 0.3
+        g = Gen(rng, len(DOFS_TIE), alpha, qs=qs, malformed=malformed, scale=scaled)
         depth = rng.choice([1, 2, 2, 3, 3, 4, 4, 5, 5])
         p = g.program(depth)
+        if scaled and g.body_typ in ("U", "O") and rng.random() < 0.6:
+            p["body"] = root_scale(rng, p["body"], g.body_typ)       # global scale c * H, H * c, H / c
         if g.body_typ == "U" and rng.random() < 0.4:
             at = None if rng.random() < 0.5 else {k: v for k, v in g.sc("atol").items() if k != "t"}
+            if at is not None and scaled and at["k"] != "int":
+                at["ex"] += rng.choice([0, 0] + KS)                  # tolerances of every magnitude
             p["body"] = {"t": "simplify", "a": p["body"], "atol": at}
         programs.append(p)
-        meta.append({"qs": qs, "malformed": malformed, "depth": depth_of(p["body"]), "nops": nops(p["body"]) + sum(nops(x) for x in p["lets"])})
+        meta.append({"qs": qs, "malformed": malformed, "scaled": scaled, "depth": depth_of(p["body"]), "nops": nops(p["body"]) + sum(nops(x) for x in p["lets"])})
         for k, v in g.hist.items():
             hist[k] = hist.get(k, 0) + v
     pairs = gen_pairs(rng, n_pair)
     splits = gen_splits(rng, n_split)
+    cts = gen_cts(rng, n_ct)
 
     payload = {"syms": SYMS, "dofs": DOFS_TIE}
     chunks = 12 if thorough else 6
@@ -648,11 +705,13 @@ def run(ctx):
         pl["programs"] = programs[c::chunks]
         pl["pairs"] = pairs[c::chunks]
         pl["splits"] = splits[c::chunks]
+        pl["cts"] = cts[c::chunks]
         pls.append(pl)
     impl_out = ctx.impl_par("c15_impl.py", pls)
     impl_prog = [None] * len(programs)
     impl_pair = [None] * len(pairs)
     impl_split = [None] * len(splits)
+    impl_ct = [None] * len(cts)
     impl_fail = None
     for c, (rc, res, out) in enumerate(impl_out):
         if res is None:
@@ -661,6 +720,7 @@ def run(ctx):
         impl_prog[c::chunks] = res["programs"]
         impl_pair[c::chunks] = res["pairs"]
         impl_split[c::chunks] = res["splits"]
+        impl_ct[c::chunks] = res["cts"]
 
     # ---- 3. model
     files = []
@@ -685,6 +745,12 @@ def run(ctx):
         body = ";\n".join("(pk (match %s with Some (VO a) => 1 :: enc_split (split_elementary DG (fun d => nth (Z.to_nat d) [%s] 0) a) | _ => [0] end))"
                           % (coq_prog(s["prog"]), "; ".join(zc(x) for x in s["site"])) for s in blk)
         files.append(("split%03d" % (k // 100), PREAMBLE + "Eval vm_compute in (concat [\n%s]).\n" % body, ("split", k, len(blk), None)))
+    for k in range(0, len(cts), 80):
+        blk = cts[k:k + 80]
+        body = ";\n".join("(pk (enc_val (obind (oseq [%s]) (fun l => option_map (@VL DG) (check_operator_terms DG (fun d => existsb (Z.eqb d) [%s]) l)))))"
+                          % ("; ".join(coq_prog(it) for it in c_["items"]), "; ".join(zc(x) for x in c_["known"])) for c_ in blk)
+        files.append(("ct%03d" % (k // 80), PREAMBLE + "From RV Require Import Gen.CheckTerms.\nEval vm_compute in (concat [\n%s]).\n" % body, ("ct", k, len(blk), None)))
+    model_ct = [None] * len(cts)
     model_prog = [None] * len(programs)
     model_pair = [None] * len(pairs)
     model_split = [None] * len(splits)
@@ -712,6 +778,12 @@ def run(ctx):
                     coq_fail = (n, "unexpected number of values")
                     continue
                 model_pair[k:k + cnt] = lists[0]
+            elif kind == "ct":
+                vals = unpack(lists[0])
+                if len(vals) != cnt:
+                    coq_fail = (n, "unexpected number of values")
+                    continue
+                model_ct[k:k + cnt] = [dec_val(v) for v in vals]
             else:
                 vals = unpack(lists[0])
                 if len(vals) != cnt:
@@ -742,7 +814,9 @@ def run(ctx):
         fails.setdefault(key, []).append((size, detail, repro, found))
 
     stats = {"programs": len(programs), "accepted": 0, "rejected_both": 0, "same": 0, "rounded": 0,
-             "eval_agree": 0, "pairs": len(pairs), "pairs_equal": 0, "splits": len(splits)}
+             "eval_agree": 0, "pairs": len(pairs), "pairs_equal": 0, "splits": len(splits),
+             "scaled_programs": sum(1 for m in meta if m["scaled"]),
+             "ct_cases": len(cts), "ct_same": 0, "ct_accepted": 0, "ct_terms_kept": 0, "ct_tiny_kept": 0}
     exc_hist, root_hist, depth_hist, kind_hist = {}, {}, {}, {}
     nontrivial = set()
     samples = []
@@ -850,6 +924,24 @@ def run(ctx):
             else:
                 nontrivial.add("split" + json.dumps(s, sort_keys=True))
 
+        for i, c_ in enumerate(cts):
+            im, mo = impl_ct[i], model_ct[i]
+            verdict = im.get("verdict", {"ok": True})
+            d = cmp_result(im, mo)
+            rep = REPRO_CT % (IMPL_DIR, json.dumps(dict(c_, syms=SYMS, dofs=DOFS_TIE)))
+            if not verdict["ok"]:
+                add_fail("checkterms:model-construction-drops-or-rejects-terms", len(json.dumps(c_)),
+                         {"what": verdict["why"], "case": c_, "impl": im, "model": mo}, rep)
+            elif d not in ("same", "rounded"):
+                add_fail("checkterms:%s" % fail_class(d), len(json.dumps(c_)), {"difference": d, "case": c_, "impl": im, "model": mo}, None, found=False)
+            else:
+                stats["ct_same"] += 1
+                if im["tag"] != "err":
+                    stats["ct_accepted"] += 1
+                    stats["ct_terms_kept"] += len(im["terms"])
+                    stats["ct_tiny_kept"] += sum(1 for t in im["terms"] if t["re"] and 0 < abs(Fraction(*t["re"])) + abs(Fraction(*t["im"])) < Fraction(1, 2 ** 52))
+                    nontrivial.add("ct" + json.dumps(c_, sort_keys=True))
+
     # ---- 5. dense oracle (always)
     ora_progs = []
     for i in range(n_ora):
@@ -857,16 +949,33 @@ def run(ctx):
         if rng.random() < 0.6:
             ds = rng.sample(range(len(DOFS_ORA)), rng.choice([1, 2, 2, 3]))
             alpha = {d: rng.sample(ORA_SYMS[d], min(len(ORA_SYMS[d]), rng.choice([1, 2, 3]))) for d in ds}
-        g = Gen(rng, len(DOFS_ORA), alpha, qs=1, max_terms=16, max_word=6, malformed=False, plain=True)
+        oscaled = rng.random() < 0.3
+        g = Gen(rng, len(DOFS_ORA), alpha, qs=1, max_terms=16, max_word=6, malformed=False, plain=True, scale=oscaled)
         ora_progs.append(g.program(rng.choice([1, 2, 3, 3, 4, 4, 5])))
+        if oscaled:
+            ora_progs[-1]["hk"] = True            # Mpo route with Hopcroft-Karp (qr is not scale invariant: C01 finding)
+            if rng.random() < 0.6:
+                ora_progs[-1]["body"] = root_scale(rng, ora_progs[-1]["body"], g.body_typ)
         if i % 3 == 0:       # tolerance clause at the root
             at = g.sc("atol")
+            if oscaled and at["k"] != "int":
+                at["ex"] += rng.choice([0, 0] + KS)
             b = ora_progs[-1]["body"]
             ora_progs[-1]["body"] = {"t": "simplify", "a": {"t": "bin", "op": "+", "a": b, "b": {"t": "opsum", "items": []}, "aug": False},
                                      "atol": {k: v for k, v in at.items() if k != "t"}}
+    scl_cases = []
+    for i in range(n_scl):
+        ds = rng.sample(range(len(DOFS_ORA)), rng.choice([2, 3, 4]))
+        alpha = {d: rng.sample(ORA_SYMS[d], min(len(ORA_SYMS[d]), rng.choice([1, 2, 3]))) for d in ds}
+        g = Gen(rng, len(DOFS_ORA), alpha, qs=1, max_terms=12, max_word=4, malformed=False, plain=True)
+        g.env = []
+        body = g.gen(rng.choice([1, 2, 2, 3]), "U")[0]
+        scl_cases.append({"prog": {"lets": [], "body": body}, "ks": rng.sample(KS, 3), "mixed": [rng.choice(KS + [0]) for _ in range(5)]})
     ochunks = 12
-    ora_out = ctx.impl_par("c15_oracle.py", [{"syms": SYMS, "dofs": DOFS_ORA, "programs": ora_progs[c::ochunks]} for c in range(ochunks)])
-    ora_stats = {"programs": len(ora_progs), "ok": 0, "rejected": 0, "nodes": 0, "mpo_compared": 0}
+    ora_out = ctx.impl_par("c15_oracle.py", [{"syms": SYMS, "dofs": DOFS_ORA, "programs": ora_progs[c::ochunks], "scaled": scl_cases[c::ochunks]} for c in range(ochunks)])
+    ora_stats = {"programs": len(ora_progs), "ok": 0, "rejected": 0, "nodes": 0, "mpo_compared": 0,
+                 "scaled_model_cases": len(scl_cases), "scaled_model_ok": 0, "scaled_model_constructions": 0,
+                 "bad": 0, "scaled_model_bad": 0}
     ora_fail = None
     for c, (rc, res, out) in enumerate(ora_out):
         if res is None:
@@ -880,13 +989,37 @@ def run(ctx):
             elif r_["status"] == "rejected":
                 ora_stats["rejected"] += 1
             else:
+                ora_stats["bad"] += 1
                 first = r_["bad"][0]
                 key = "oracle:%s" % first["what"][:48].replace(" ", "-")
                 case = {"syms": SYMS, "dofs": DOFS_ORA, "prog": p}
                 add_fail(key, len(json.dumps(p)), {"bad": r_["bad"][:3], "program": p, "value": r_.get("value")},
                          REPRO_ORA % (IMPL_DIR, json.dumps(case)))
+        for c_, r_ in zip(scl_cases[c::ochunks], res.get("scaled", [])):
+            if r_["status"] == "ok":
+                ora_stats["scaled_model_ok"] += 1
+                ora_stats["scaled_model_constructions"] += r_.get("compared", 0)
+            elif r_["status"] == "bad":
+                ora_stats["scaled_model_bad"] += 1
+                first = r_["bad"][0]
+                add_fail("oracle-scaled:%s" % first["what"][:56].replace(" ", "-"), len(json.dumps(c_)),
+                         {"bad": r_["bad"][:3], "case": c_, "value": r_.get("value")},
+                         REPRO_ORA % (IMPL_DIR, json.dumps({"syms": SYMS, "dofs": DOFS_ORA, "scaled": c_})))
+
+    # a dense oracle that accepts (almost) nothing is a machinery fault, not a pass
+    if ora_fail is None and ((ora_stats["ok"] + ora_stats["bad"]) * 2 < ora_stats["programs"]
+                             or (ora_stats["scaled_model_ok"] + ora_stats["scaled_model_bad"]) * 2 < ora_stats["scaled_model_cases"]):
+        ctx.violation("harness:oracle-degenerate", "dense oracle accepted fewer than half of its cases (machinery fault, not evidence about the code)",
+                      {"oracle": ora_stats}, found=False)
+    n_rnd_ok = sum(1 for r_ in rnd_prog if r_ and r_["status"] in ("ok", "bad"))
+    if rnd_fail is None and n_rnd_ok * 2 < len(programs):
+        ctx.violation("harness:oracle-degenerate", "random-interpretation oracle accepted fewer than half of the tie programs (machinery fault)",
+                      {"ok": n_rnd_ok, "programs": len(programs)}, found=False)
 
     # ---- 6. report
+    if tx_fail is not None:
+        ctx.violation("translator:checkterms", "translator tx/checkterms.py: Model.check_operator_terms is no longer the exact zero filter the theorems C15_check_terms_* are about (" + tx_fail + ")",
+                      {"translator_error": tx_fail}, found=False)
     if impl_fail is not None:
         ctx.violation("harness:impl-script", "correspondence could not run (implementation script failed)", {"out": impl_fail}, found=False)
     if coq_fail is not None:
@@ -902,7 +1035,7 @@ def run(ctx):
         size, detail, repro, found = lst[0]
         detail = dict(detail)
         detail["cases_in_this_class"] = len(lst)
-        if key.startswith("oracle"):
+        if key.startswith("oracle") and not key.startswith("oracle-scaled:"):
             broken = "dense oracle: matrix of the expression differs from the matrix expression of the operands (C15_eval_sound / C15_simplify_atol no longer describe the code)"
         elif key.startswith("eqhash:"):
             broken = "correspondence ==/hash (C15_eq_hash, C15_eq_iff_fields)"
@@ -910,6 +1043,8 @@ def run(ctx):
             broken = "correspondence split_elementary (C15_split_elementary_normal_form)"
         elif key.startswith("model:"):
             broken = "model self-consistency (eval vs dispatch functions)"
+        elif key.startswith("checkterms:") or key.startswith("oracle-scaled:"):
+            broken = "Model.check_operator_terms vs Gen/CheckTerms.v (C15_check_terms_keeps_iff_nonzero, C15_check_terms_scale_equivariant, C15_check_terms_den): " + key
         else:
             broken = "correspondence expression programs (model Model/OpAlg.v vs op.py): " + key
         ctx.violation(key, broken, detail, found=bool(found and repro), repro=repro)
@@ -918,14 +1053,62 @@ def run(ctx):
     ctx.notes.append("excluded-class probe (informational, never an alarm): %s" % (json.dumps(probe) if probe else outp[-300:]))
     ctx.notes.append("tie: %s" % json.dumps(stats))
     ctx.notes.append("oracle: %s" % json.dumps(ora_stats))
-    return {"evaluations": len(programs) + len(pairs) + len(splits) + ora_stats["programs"],
-            "distinct_nontrivial": len(nontrivial) + ora_stats["ok"],
-            "rule": "tie: distinct accepted expression programs with >= 2 operator nodes and >= 1 result term whose implementation result equals the model's field by field (exact factors), plus distinct ==/hash pairs and split_elementary cases that agree; oracle: programs accepted by the implementation whose dense matrix equals the matrix expression at every node (1e-9 relative)",
+    return {"evaluations": len(programs) + len(pairs) + len(splits) + len(cts) + ora_stats["programs"] + ora_stats["scaled_model_cases"],
+            "distinct_nontrivial": len(nontrivial) + ora_stats["ok"] + ora_stats["scaled_model_ok"],
+            "rule": "tie: distinct accepted expression programs with >= 2 operator nodes and >= 1 result term whose implementation result equals the model's field by field (exact factors), plus distinct ==/hash pairs and split_elementary cases that agree; check-terms: Model(basis, terms).ham_terms equal to the translated filter's result at global and mixed scales 2^-100..2^100; oracle: programs accepted by the implementation whose dense matrix equals the matrix expression at every node (1e-9 relative to the magnitude of the terms), and Model(c*H) = c*Model(H) cases",
             "samples": samples[:3], "exhaustive": False,
             "input_distribution": {"tie": stats, "oracle": ora_stats, "root_node": root_hist, "depth": depth_hist,
                                    "rejected_exception_classes": exc_hist, "productions": hist,
                                    "qn_size_2_programs": sum(1 for m in meta if m["qs"] == 2),
                                    "malformed_stream_programs": sum(1 for m in meta if m["malformed"])}}
+
+
+# ------------------------------------------------------------------------------- scales
+def scale_sc(rng, k, div=False):
+    """the scalar 2**k (or a unit Gaussian multiple of it) as a python / NumPy float or complex"""
+    cplx = rng.random() < 0.25
+    re, im = (rng.choice([(0, 1), (0, -1), (1, 1), (-1, 1), (1, -1)]) if cplx else (rng.choice([1, 1, -1]), 0))
+    if not div and not cplx and rng.random() < 0.3:
+        re = rng.choice([3, -3, 5])
+    return {"t": "sc", "k": rng.choice(["complex", "c128"] if cplx else ["float", "f64"]), "re": re, "im": im, "ex": k}
+
+
+def root_scale(rng, body, typ):
+    k = rng.choice(KS)
+    form = rng.choice(["r", "l", "div"] if typ == "U" else ["r", "l"])
+    if form == "r":
+        return {"t": "bin", "op": "*", "a": body, "b": scale_sc(rng, k), "aug": False}
+    if form == "l":
+        return {"t": "bin", "op": "*", "a": scale_sc(rng, k), "b": body, "aug": False}
+    return {"t": "bin", "op": "/", "a": body, "b": scale_sc(rng, k, div=True), "aug": False}
+
+
+def gen_cts(rng, n):
+    """Model.check_operator_terms cases: lists of Op / OpSum items (sometimes a plain list or an unknown dof) whose
+    factors span 2^-100 .. 2^100 within one list, with exact zeros, complex factors and a global scale"""
+    out = []
+    for _ in range(n):
+        qs = rng.choice([1, 1, 2])
+        known = sorted(rng.sample(range(len(DOFS_TIE)), rng.choice([2, 3, 4, 6])))
+        usable = list(known)
+        if rng.random() < 0.08 and len(known) < len(DOFS_TIE):
+            usable.append(rng.choice([d for d in range(len(DOFS_TIE)) if d not in known]))     # unknown dof -> ValueError
+        alpha = {d: rng.sample(range(1, len(SYMS)), rng.choice([1, 2, 3])) for d in usable}
+        g = Gen(rng, len(DOFS_TIE), alpha, qs=qs, scale=rng.random() < 0.8, max_word=6, max_terms=10)
+        g.env = []
+        items = []
+        for _i in range(rng.choice([1, 2, 2, 3, 4])):
+            t = rng.choice(["O", "U", "U"])
+            if rng.random() < 0.04:
+                t = "L"                                                                            # plain list -> ValueError
+            items.append({"lets": [], "body": g.gen(rng.choice([0, 0, 1, 2]), t)[0]})
+        if rng.random() < 0.5:                 # the same global scale on every item: Model(c * H)
+            k = rng.choice(KS)
+            for it in items:
+                it["body"] = {"t": "bin", "op": "*", "a": it["body"], "b": scale_sc(rng, k), "aug": False} if rng.random() < 0.5 \
+                    else {"t": "bin", "op": "*", "a": scale_sc(rng, k), "b": it["body"], "aug": False}
+        out.append({"items": items, "known": known})
+    return out
 
 
 # ------------------------------------------------------------------------------- ==/hash pairs and splits
@@ -937,13 +1120,17 @@ def gen_pairs(rng, n):
         a = g.leaf_op()[0]
         while a["t"] != "op":
             a = g.leaf_op()[0]
+        if rng.random() < 0.4:                 # factors of every magnitude
+            a["f"] = dict(a["f"], ex=a["f"]["ex"] + rng.choice(KS))
+            if a["f"]["k"] in INT_KINDS:
+                a["f"]["k"] = "float"
         b = json.loads(json.dumps(a))
         kind = rng.choice(["same", "ftype", "ftype", "zero", "via1", "negneg", "field", "field", "qnstyle", "product", "scal_order", "other"])
         pa, pb = {"lets": [], "body": a}, {"lets": [], "body": b}
         f = a["f"]
         if kind == "ftype":
             if f["im"] == 0:
-                ks = ["float", "f64", "complex", "c128"] + (["int", "i64"] if f["ex"] >= 0 else [])
+                ks = ["float", "f64", "complex", "c128"] + (["int", "i64"] if 0 <= f["ex"] <= 40 else [])
             else:
                 ks = ["complex", "c128"]
             b["f"] = dict(f, k=rng.choice(ks))
